@@ -185,7 +185,36 @@ func Digits() *rapid.Generator[int] {
 // MutateCode derives a wrong (or accidentally right) string from a code.
 func MutateCode(t *rapid.T, code string) string {
 	b := []byte(code)
-	switch rapid.IntRange(0, 17).Draw(t, "mutKind") {
+	switch rapid.IntRange(0, 19).Draw(t, "mutKind") {
+	case 18: // same length: one or more digits replaced by the letter people mistake them for (O for 0, l for 1, S for 5, B for 8 ...)
+		look := map[byte]string{'0': "OoQD", '1': "IlLi|", '2': "Zz", '5': "Ss", '6': "Gb", '8': "B", '9': "gq", '3': "E", '4': "A", '7': "T"}
+		n := rapid.IntRange(1, 3).Draw(t, "mutLookN")
+		for k := 0; k < n && len(b) > 0; k++ {
+			i := rapid.IntRange(0, len(b)-1).Draw(t, "mutLookAt")
+			if l, okk := look[b[i]]; okk {
+				b[i] = l[rapid.IntRange(0, len(l)-1).Draw(t, "mutLookCh")]
+			}
+		}
+		if string(b) == code {
+			return code + "O"
+		}
+		return string(b)
+	case 19: // the code as people type or paste it: grouped by a blank or dash, with a trailing line break, in quotes
+		if len(b) >= 2 {
+			h := len(b) / 2
+			sep := rapid.SampledFrom([]string{" ", "-", "\u00a0", "  ", "."}).Draw(t, "mutGroupSep")
+			switch rapid.IntRange(0, 3).Draw(t, "mutGroupK") {
+			case 0:
+				return code[:h] + sep + code[h:]
+			case 1:
+				return code + rapid.SampledFrom([]string{"\n", "\r\n", " ", "\t"}).Draw(t, "mutGroupT")
+			case 2:
+				return "\"" + code + "\""
+			default:
+				return code[:h] + sep + code[h:] + "\n"
+			}
+		}
+		return code + " "
 	case 17: // same BYTE length, but 2..4 bytes are one multi-byte character whose code point ends in the byte it starts at
 		// (U+0130 for '0', U+1037 for '7'): a comparison that walks characters instead of bytes, or narrows a rune to a
 		// byte, sees the right value there and never looks at the positions the character covers
